@@ -470,6 +470,7 @@ func perrClass(e error) string {
 		{"parse error: invalid syntax (unexpected", "PK_NoPrefix"},
 		{"invalid return statement", "PK_InvalidReturn"},
 		{"invalid case expression", "PK_InvalidCase"},
+		{"invalid else if expression", "PK_InvalidElseIf"},
 		{"following statement", "PK_FollowingStatement"},
 		{"assignment is missing a value", "PK_MissingValue"},
 		{"parse error: expected expression", "PK_ExpectedExpr"},
